@@ -1,4 +1,5 @@
 import Martian.Props.C05.Facts
+import Martian.Props.C05.SemFacts
 import Martian.Props.C05.TlsSession
 import Martian.Lemmas.Proxy
 import Martian.Lemmas.ProxyTrace
